@@ -111,4 +111,17 @@ CHECKS = {
         assumptions=["a successful FileSys-level Create consumes (releases) the parent handle, as ramfs does",
                      "in the corner 'directory created but OpenDir fails' release accounting of the parent and the new entry is not asserted (the property text does not determine it); termination and the end state are"],
     ),
+    "C20": dict(
+        pkg="sessfs",
+        level="exploration",
+        groups=[G("^TestC20_Client$", 1500, 12000)],
+        rule="histories of 2..30 (thorough 60) file-system-level operations (Attach/Walk/Open/OpenDir/Create/Stat/WStat/Clunk/Remove/read) on entries obtained from "
+             "p9p.CFileSys layered over a recording spy over SFileSys(mockfs); walk name lists include '.', '', 'x/..' forms, missing and partial targets, separators; "
+             "10% injected file-system failures. Oracle: the spy shows exactly the corresponding session call on the entry's own fid; live entries and server fids "
+             "(read through the verif hook) correspond one to one after every step; a walk is reported as success iff the server completed it; after clunking every "
+             "entry the server table is empty. Non-trivial = a walk whose names are changed by normalisation, or a partial walk.",
+        require_classes=dict(quick=["walk_normalised", "walk_partial", "walk_complete", "walk_failed", "create_ok"], thorough=[]),
+        assumptions=["operations are only issued on live entries (using an entry after Clunk/Remove is caller misuse)",
+                     "Create with a name the client rejects locally may legitimately issue no session call"],
+    ),
 }
